@@ -181,13 +181,13 @@ PROPS["C16"] = {
              "conversion shared by grafanaNet and kafkaMdm) must carry name = text before ';', sorted tags, value, time, org id and interval = "
              "first retention of the rule chosen by a reference selector (priority desc, then file order, first regexp match on name or "
              "name;sorted-tags). Non-trivial (metricdata): >=2 rules match and a $-anchored or tag-sensitive non-default rule decides; "
-             "(pickle_out): the line is representable. Distinct = hash(line[, schemas text])."),
+             "(pickle_out): the line is representable. Distinct = hash(line[, schemas text]). pickle_siblings: 2-3 pickle-mode destinations of one sendAllMatch route, each with its own loopback endpoint, one of them throttled, iobuf 64 B..64 KB (frames straddle the buffer), 2 000-20 000 lines: every endpoint's stream must split into length-prefixed pickles each decoding to exactly one handed-in line (name, int timestamp, float value), in hand-off order, none twice; absent ones only with slow-connection drops counted."),
     "level_text": "Round-trip through a real external decoder (CPython pickle.loads) and reference-model comparison for schema selection over generated files and lines; holds on all generated.",
     "level_note": "Names are ASCII (CPython 3 refuses non-ASCII byte strings by default); the MetricData conversion is checked at parseMetric (white-box wrapper); real grafanaNet POST bodies are decoded in C17.",
     "technique": "property-based testing (rapid): round-trip via CPython unpickler + reference storage-schemas selector",
     "assumptions": ["CPython's unpickler is the reference decoder", "metrictank's MetricData.Validate defines which tags are invalid"],
-    "quick": [R("TestPropPickleOut", 6000), R("TestPropMetricData", 6000)],
-    "thorough": [R("TestPropPickleOut", 60000, shards=6, timeout=2400), R("TestPropMetricData", 100000, shards=10, timeout=2400)],
+    "quick": [R("TestPropPickleOut", 6000), R("TestPropMetricData", 6000), R("TestPropPickleSiblings", 40)],
+    "thorough": [R("TestPropPickleOut", 60000, shards=5, timeout=2400), R("TestPropMetricData", 100000, shards=8, timeout=2400), R("TestPropPickleSiblings", 400, shards=3, timeout=2400)],
 }
 
 PROPS["C19"] = {
